@@ -409,9 +409,9 @@ func checkC02(r *Result, rng *rand.Rand, thorough bool) {
 		ncases, n = 600, 80
 	}
 	c02Thorough = thorough
-	r.Rule = "random LOOKUP/CREATE/MKDIR/SYMLINK/REMOVE/RMDIR/RENAME/READDIR(PLUS)/GETATTR/READLINK/ACCESS histories (names a-d, links l1-l2, depth <= 2) run under all 8 combinations of attribute TTL x dir cache x negative cache (thorough: plus mid-history expiry and a 3-entry attribute cache); each run judged against a shadow tree model, every run's replies compared with the cache-less run"
+	r.Rule = "random LOOKUP/CREATE/MKDIR/SYMLINK/REMOVE/RMDIR/RENAME/READDIR(PLUS)/GETATTR/READLINK/ACCESS histories (names a-d, links l1-l2, depth <= 2; every third history 'tight': names a-b only and mostly LOOKUP/MKDIR/RMDIR/RENAME/CREATE/REMOVE so that names are reused and looked up while absent) run under all 8 combinations of attribute TTL x dir cache x negative cache (thorough: plus mid-history expiry and a 3-entry attribute cache); each run judged against a shadow tree model, every run's replies compared with the cache-less run"
 	for i := 0; i < ncases; i++ {
-		g := &nsGen{depth: 2}
+		g := &nsGen{depth: 2, tight: i%3 == 2}
 		c := genNsCase(rng, 5+rng.Intn(n), g)
 		vs := judgeC02(c)
 		r.noteCase(fmt.Sprint(c.strings()), true)
